@@ -201,8 +201,62 @@ class Rule:
         return ['rule', self.pred.sx()] + [l.sx() for l in self.lines]
 
 
+def gen_mixed(rng):
+    """1-4 lines mixing real, [balanced] and (virtual) lines in EVERY order, multipliers or fixed amounts; the lines that
+    must balance sum to zero, or miss it by a small residue (below / at / above half a display unit once multiplied), by a
+    missing counter-line, or by a counter-line in another commodity.  The balance re-check after the extension must
+    not depend on which line comes last."""
+    st = lambda: rng.choice([0, 0, 0, 0, 1, 2])
+    bk = lambda: rng.choice(['R', 'R', 'B'])
+    nmb = rng.choice([1, 2, 2, 2, 3])
+    nv = rng.randrange(0, 4 - nmb + 1) if rng.random() < 0.8 else 0
+    how = rng.choice(['balanced', 'balanced', 'residue', 'residue', 'missing', 'commodity'])
+    fixed = rng.random() < 0.3
+    if nmb == 1 and how in ('balanced', 'residue', 'commodity'):
+        how = 'missing'
+    if how == 'commodity':
+        fixed = True
+    if fixed:
+        sym = rng.choice(['$', 'EUR', 'AAA'])
+        d = DEC[sym]
+        vals = [F(rng.randrange(-5000, 5000) or 7, 10 ** d) for _ in range(nmb)]
+        if how != 'missing':
+            vals[-1] = -sum(vals[:-1])
+        if how == 'residue':
+            vals[-1] += F(rng.choice([1, -1, 2, 100]), 10 ** d)
+        amts = [X.Amt(v, d, sym) for v in vals]
+        if how == 'commodity':
+            other = rng.choice([c for c in ['$', 'EUR', 'AAA'] if c != sym])
+            amts[-1] = X.Amt(F(int(vals[-1] * 10 ** d), 10 ** DEC[other]), DEC[other], other)
+    else:
+        ms = [mult(rng.choice(MULTS[:11])) for _ in range(nmb)]
+        dec = max(m.dec for m in ms)
+        if how != 'missing':
+            last = -sum(m.value for m in ms[:-1])
+            if how == 'residue':
+                rd = rng.choice([0, 1, 2, 3, 4, 5, 6])
+                last += F(rng.choice([1, -1, 4, 5, 6, -5]), 10 ** rd)
+                dec = max(dec, rd)
+            ms[-1] = X.Amt(last, dec, None)
+        amts = ms
+    lines = [Line(rng.choice(RACCTS), bk(), a, st()) for a in amts]
+    for _ in range(nv):
+        if rng.random() < 0.7:
+            lines.append(Line(rng.choice(RACCTS), 'V', mult(rng.choice(MULTS)), st()))
+        else:
+            vs = rng.choice(['$', 'EUR', 'AAA'])
+            lines.append(Line(rng.choice(RACCTS), 'V', X.Amt(F(rng.randrange(-5000, 5000), 10 ** DEC[vs]), DEC[vs], vs), st()))
+    rng.shuffle(lines)
+    if nv and rng.random() < 0.35:                      # a (virtual) line last, explicitly
+        k = next(i for i, l in enumerate(lines) if l.kind == 'V')
+        lines.append(lines.pop(k))
+    return lines[:4], 'mixed-' + how + ('-vlast' if lines[:4][-1].kind == 'V' else '')
+
+
 def gen_lines(rng):
     """-> (lines, kind of rule).  Usually balancing pairs, so that the extension still balances."""
+    if rng.random() < 0.3:
+        return gen_mixed(rng)
     lines = []
     r = rng.random()
     st = lambda: rng.choice([0, 0, 0, 0, 1, 2])
@@ -613,6 +667,19 @@ def residual_after(base_rows, ext, upto_rule):
     return {k: v for k, v in tot.items() if v != 0}
 
 
+def display_state(resid):
+    """how a per-commodity residual shows at the commodities' display precision:
+    'zero' (every entry below half a unit), 'nonzero' (some entry above half a unit), None (an exact tie)"""
+    state = 'zero'
+    for sym, v in resid.items():
+        half = F(1, 2 * 10 ** DEC.get(sym, 0))
+        if abs(v) > half:
+            return 'nonzero'
+        if abs(v) == half:
+            state = None
+    return state
+
+
 def groups_self_balancing(ext):
     """do the must-balance postings made for each matched posting sum to zero on their own?"""
     tot = {}
@@ -668,8 +735,8 @@ def oracle(res, items, text, rows, rejected, base_rows, base_rejected):
                 if not noamt and has_cost and all(groups_self_balancing(e) for e in variants):
                     res.violations.append(dict(key='balanced-extension-rejected', desc='every matched posting received postings that balance among themselves, but the transaction (valid without rules) was rejected',
                                                case=case, observed='ERR Unbalanced', required='accepted'))
-                if not noamt and not has_cost and all(not residual_after(base, e, rn) for rn, _ in rules_seen for e in variants):
-                    res.violations.append(dict(key='balanced-extension-rejected', desc='the extended transaction balances exactly after every rule but was rejected',
+                if not noamt and not has_cost and all(display_state(residual_after(base, e, rn)) == 'zero' for rn, _ in rules_seen for e in variants):
+                    res.violations.append(dict(key='balanced-extension-rejected', desc='after every rule the postings that must balance sum to zero at display precision, but the transaction was rejected',
                                                case=case, observed='ERR Unbalanced', required='accepted'))
             else:
                 res.violations.append(dict(key='extension-error:' + cls, desc='unexpected error class %s' % cls, case=case,
@@ -720,12 +787,24 @@ def oracle(res, items, text, rows, rejected, base_rows, base_rejected):
                                        observed=[r['text'] for r in suffix], required='generated'))
         if ext:
             res.nontrivial.add(it.text(0) + '|' + '|'.join(r.text() for _, r in rules_seen))
-        # an extension off by a whole unit must not have been accepted
+        # accepted iff the postings that must balance (original + generated) sum to zero at display precision, after
+        # every rule that added such a posting
         if not has_cost:
-            resid = residual_after(base, ext, len(rules_seen))
-            if any(abs(v) >= 1 for v in resid.values()) and any(e[5] for e in ext):
-                res.violations.append(dict(key='unbalanced-extension-accepted', desc='extended transaction is off by %s but was accepted' % resid,
-                                           case=case, observed='accepted', required='ERR Unbalanced'))
+            for rn, _ in rules_seen:
+                resid = residual_after(base, ext, rn)
+                if display_state(resid) == 'nonzero' and any(e[5] and e[0] <= rn for e in ext):
+                    res.violations.append(dict(key='unbalanced-extension-accepted', desc='after rule %d the postings that must balance are off by %s, yet the transaction was accepted' % (rn, {k: str(v) for k, v in resid.items()}),
+                                               case=case, observed='accepted', required='ERR Unbalanced'))
+                    break
+            # and the accepted report itself: the real and [balanced] rows of the transaction sum to zero
+            tot = {}
+            for r in got:
+                if r['kind'] != 'v' and r['cost'] is not None:
+                    tot[r['cost'][0]] = tot.get(r['cost'][0], 0) + r['cost'][1]
+            tot = {k: v for k, v in tot.items() if v != 0}
+            if display_state(tot) == 'nonzero':
+                res.violations.append(dict(key='accepted-transaction-does-not-balance', desc='the real and [balanced] postings of an accepted transaction sum to %s' % {k: str(v) for k, v in tot.items()},
+                                           case=case, observed='accepted', required='zero sum at display precision, or ERR Unbalanced'))
         i += 1
 
 
@@ -818,6 +897,17 @@ def fixed_journals():
                             '2020/03/01')
     js.append([teach(), r7, r8, two(True), two(False)])
     js.append([r8, r7, teach(), two(True)])
+    # the balance re-check must not depend on which line of the rule comes last: an unbalanced real line followed by
+    # a (virtual) line, the same lines the other way round, and with [balanced] / several matches / a small residue
+    tax = lambda k='R', m=('0.10', 2): Line('Liabilities:Tax', k, mult(m))
+    bud = lambda: Line('Budget:Food', 'V', mult(('-1', 0)))
+    for lines in ([tax(), bud()], [bud(), tax()], [tax('B'), bud()], [tax(), Line('Tax:Fed', 'R', mult(('-0.10', 2))), bud()],
+                  [tax(), Line('Tax:Fed', 'B', mult(('-0.099', 3))), bud()], [tax(), Line('Tax:Fed', 'R', mult(('-0.1001', 4))), bud()],
+                  [Line('Tax:Fed', 'R', A(F(1), 2, '$')), Line('Liabilities:Tax', 'R', A(F(-1), 2, 'EUR')), bud()]):
+        rr = Rule(Pred('acct', 'Expenses'), lines, '/Expenses/')
+        rr.shape = 'fixed-recheck'
+        js.append([teach(), rr, food(100), food(1),
+                   Txn([P('Expenses:Food', 'R', A(F(30), 2, '$')), P('Expenses:Rent', 'R', A(F(-30), 2, '$'))], '2020/04/01')])
     for jn in js:
         for it in jn:
             if isinstance(it, Txn) and not hasattr(it, 'shape'):
@@ -830,7 +920,7 @@ def run(ctx, n_override=None):
     res = lib.Result()
     res.rule = ('journals interleaving 0-4 rules (account / payee substring predicates in query and expr syntax, amount comparisons, '
                 '! & | combinations; 1-4 lines: multipliers with 0-8 decimals incl. 0 and negative, fixed amounts, real / (virtual) / '
-                '[balanced] lines, state marks; balancing pairs, virtual-only, deliberately unbalancing, a line without amount) with 1-30 '
+                '[balanced] lines, state marks; balancing pairs, virtual-only, deliberately unbalancing, a line without amount; a family mixing real / [balanced] / (virtual) lines in every order whose must-balance lines sum to zero or miss it by a small residue, a missing counter-line or a counter-line in another commodity) with 1-30 '
                 'transactions (plain, elided incl. two commodities, virtual, cost, unbalanced; cleared/pending) after a transaction '
                 'teaching each commodity its decimals; rules before, between and after the transactions; non-trivial = at least one rule '
                 'precedes the transaction and the text requires at least one generated posting; distinct by transaction text + the '
